@@ -63,12 +63,13 @@ static int same_set(hwloc_const_bitmap_t a, hwloc_const_bitmap_t b)
 
 /* a bitmap whose ulongs hold a known pattern (the sscanf functions leave the
  * words they do not store to as they were) */
+static unsigned long dirty_pattern = DIRTY;
 static hwloc_bitmap_t dirty_bitmap(size_t nwords)
 {
   hwloc_bitmap_t b = hwloc_bitmap_alloc();
   unsigned long *m = malloc(nwords * sizeof(*m));
   size_t i;
-  for (i = 0; i < nwords; i++) m[i] = DIRTY;
+  for (i = 0; i < nwords; i++) m[i] = dirty_pattern;
   hwloc_bitmap_from_ulongs(b, (unsigned) nwords, m);
   free(m);
   return b;
@@ -177,7 +178,19 @@ static void do_parse(char fc, const unsigned char *bytes, size_t n)
   } else if (rc != -1 || !hwloc_bitmap_iszero(set)) {
     stable = 0;
   }
-  printf(" %d\n", stable);
+  /* the accepted value must be a function of the string: same parse into a
+   * bitmap holding another pattern */
+  {
+    hwloc_bitmap_t other;
+    int rc3, det;
+    dirty_pattern = ~DIRTY;
+    other = dirty_bitmap(n / 2 + 4);
+    dirty_pattern = DIRTY;
+    rc3 = ssc[f](other, s);
+    det = (rc3 == rc && same_set(other, set));
+    hwloc_bitmap_free(other);
+    printf(" %d %d\n", stable, det);
+  }
   hwloc_bitmap_free(set);
   free(s);
 }
